@@ -45,6 +45,11 @@ def gen_cases(rng, tier):
             cases.append(c)
         elif r < 0.55:
             jp, names = gen.ranked_profile(rng, ties=rng.random() < 0.5)
+            if rng.random() < 0.3:
+                # loader-style ballots that repeat a candidate: as many positions as candidates, yet one is unlisted
+                for b in jp["ballots"]:
+                    if len(b["r"]) >= 2 and rng.random() < 0.6:
+                        b["r"] = b["r"] + [list(b["r"][0])] * rng.randint(1, 2)
             cases.append({"kind": "add_missing", "profile": jp})
         elif r < 0.72:
             jp, names = gen.ranked_profile(rng, ties=True, n_cands=rng.choice([2, 3, 4, 5]), n_ballots=rng.choice([1, 2, 3]))
